@@ -112,6 +112,8 @@ func engineAnyu(rep *Report) {
 				pan, pmsg = safely(func() { u1, e1 = anyutil.Unpack(a, nil, nil) })
 				if pan || e1 != nil {
 					rep.Violate("C16", "anyu/unpack-registry-fails", tn, fmt.Sprintf("err=%v %s", e1, pmsg), rc)
+				} else if !u1.ProtoReflect().IsValid() || !proto.Equal(u1, m) {
+					rep.Violate("C16", "anyu/unpack-registry-differs", tn, fmt.Sprintf("unpacked message is valid=%v, Equal to the packed one=%v", u1.ProtoReflect().IsValid(), proto.Equal(u1, m)), rc)
 				} else if !bytes.Equal(canonOf(u1), want) {
 					rep.Violate("C16", "anyu/unpack-registry-differs", tn, "unpacked message differs: "+firstDiff(canonOf(u1), want), rc)
 				} else if u1.ProtoReflect().Descriptor().FullName() != d.FullName() {
@@ -124,6 +126,9 @@ func engineAnyu(rep *Report) {
 				} else {
 					if _, ok := u2.(*dynamicpb.Message); !ok {
 						rep.Violate("C16", "anyu/unpack-files-not-dynamic", tn, fmt.Sprintf("got %T", u2), rc)
+					}
+					if !u2.ProtoReflect().IsValid() {
+						rep.Violate("C16", "anyu/unpack-files-differs", tn, "the unpacked dynamic message is an invalid (read-only) message", rc)
 					}
 					if !bytes.Equal(canonOf(u2), want) {
 						rep.Violate("C16", "anyu/unpack-files-differs", tn, "file-registry path differs from the message: "+firstDiff(canonOf(u2), want), rc)
